@@ -197,16 +197,31 @@ def check_case(case: dict) -> Outcome:
         except Exception as e:  # noqa
             out.fail(f"C05:regex:{method}:exception:{type(e).__name__}", f"{s!r}: {e!r}")
             return out
-        for k in range(0, n + 1):
-            for subj in itertools.product(letters, repeat=k):
-                subj = "".join(subj)
-                m = pat.fullmatch(subj) is not None
-                g = rs.glob_match(toks, subj, ci=ci) if not ci else _ci_match(toks, subj)
-                if m != g:
-                    special = [ch for ch in lits if len(ch.upper()) != 1 or len(ch.lower()) != 1 or ch.upper().lower() != ch.lower() or (ch.isalpha() and ch not in (ch.upper(), ch.lower()))]
-                    cls = ":special-case-mapping" if special and method != "to_regex" else ""
-                    out.fail(f"C05:regex:{method}{cls}", f"{s!r} -> /{str(r.regexp)}/: subject {subj!r} regex={m} glob={g}")
+        def subjects():
+            for k in range(0, n + 1):
+                for subj in itertools.product(letters, repeat=k):
+                    yield "".join(subj)
+
+        for subj in subjects():
+            m = pat.fullmatch(subj) is not None
+            g = rs.glob_match(toks, subj, ci=ci) if not ci else _ci_match(toks, subj)
+            if m != g:
+                special = [ch for ch in lits if len(ch.upper()) != 1 or len(ch.lower()) != 1 or ch.upper().lower() != ch.lower() or (ch.isalpha() and ch not in (ch.upper(), ch.lower()))]
+                cls = ""
+                if special and method == "ignore_case_brackets":
+                    # recorded finding: every character becomes the class [lower upper], also when a case
+                    # mapping has several characters; any other disagreement keeps the plain signature
+                    if all((pat.fullmatch(x) is not None) == _bracket_defect_match(toks, x) for x in subjects()):
+                        cls = ":special-case-mapping"
+                elif special and method == "ignore_case_flag":
+                    # how a regex engine folds such characters under its ignore-case flag is the engine's
+                    # definition (python: simple case folding), not a statement about pySigma's output
+                    out.skipped = "case folding of a special-casing character is defined by the regex engine"
                     return out
+                elif special and method != "to_regex":
+                    cls = ":special-case-mapping"
+                out.fail(f"C05:regex:{method}{cls}", f"{s!r} -> /{str(r.regexp)}/: subject {subj!r} regex={m} glob={g}")
+                return out
         return out
     if kind == "regex_slot":
         # the {regex} slot every string template offers (bound, cased, unbound): the string as regular
@@ -376,6 +391,25 @@ def _decode_field(text, q, esc):
     return "".join(res), i
 
 
+def _bracket_defect_match(toks, subj: str) -> bool:
+    """Model of the recorded ignore_case_brackets behaviour: a literal character c stands for one character
+    out of c.lower() + c.upper() (a plain class), wildcards as usual."""
+    m = len(subj)
+    cur = {0}
+    for t in toks:
+        if t == "*":
+            cur = set(range(min(cur), m + 1)) if cur else set()
+        elif t == "?":
+            cur = {i + 1 for i in cur if i < m}
+        else:
+            ch = t[1]
+            allowed = set(ch.lower() + ch.upper()) if ch.isalpha() else {ch}
+            cur = {i + 1 for i in cur if i < m and subj[i] in allowed}
+        if not cur:
+            return False
+    return m in cur
+
+
 def _ci_match(toks, subj: str) -> bool:
     """Case-insensitive glob: simple case folding per character (both directions)."""
     cur = {0}
@@ -445,6 +479,13 @@ def run(ctx) -> None:
                         if i % ctx.nshards != ctx.shard:
                             continue
                         ctx.do({"kind": "regex_slot", "s": "".join(combo), "delim": delim, "route": route, "where": where})
+    # characters whose case mapping has another length or depends on context, followed / preceded by letters
+    for sp in ("ß", "İ", "ǅ", "ﬃ", "ŉ", "σ", "ς", "Σ"):
+        for tmpl in ("{}a", "a{}", "a{}b", "{}a.b", "x*{}y", "{}{}a"):
+            for method in ("plain", "ignore_case_flag", "ignore_case_brackets"):
+                i += 1
+                if i % ctx.nshards == ctx.shard:
+                    ctx.do({"kind": "regex", "s": tmpl.format(sp, sp), "method": method, "subject_len": 3})
     # fields
     names_al = ["a", " ", "-", ".", "`", "'", '"', "\\", "=", "(", ","]
     for fc in FIELD_CONFIGS:
